@@ -352,7 +352,7 @@ template <typename T>
 void atomicMinMax(Case& c) {
   unsigned K  = 1 + (unsigned)c.rng.below(4);
   size_t nops = c.rng.pick({(size_t)2, (size_t)50, (size_t)1000, (size_t)6000});
-  int flavour = (int)c.rng.below(4);
+  int flavour = (int)c.rng.below(6); // 4,5: trend (every op lowers a min target / raises a max target: all ops write)
   Plan p      = makePlan(c);
   c.begin("atomicMinMax", J().kv("type", tn<T>()).kv("targets", K).kv("ops", nops).kv("flavour", flavour)
                               .kv("plan", p.name()).kv("threads", p.threads).kv("noise", p.noise));
@@ -368,6 +368,8 @@ void atomicMinMax(Case& c) {
     t.isMin = c.rng.below(2);
     t.init  = c.rng.below(3) == 0 ? (t.isMin ? std::numeric_limits<T>::max() : std::numeric_limits<T>::lowest())
                                   : genVal<T>(c.rng, flavour);
+    if (flavour >= 4 && c.rng.below(2))
+      t.init = t.isMin ? (T)(2000000) : (T)(1);
     t.model = t.init;
     t.a.store(t.init, std::memory_order_relaxed);
   }
@@ -377,6 +379,8 @@ void atomicMinMax(Case& c) {
     which[i] = (uint8_t)c.rng.below(K);
     val[i]   = genVal<T>(c.rng, flavour);
     Tgt& t   = tg[which[i]];
+    if (flavour >= 4) // 1000000 +- i with a little jitter: nearly every operation is a new extreme
+      val[i] = t.isMin ? (T)(1000000 - (long)i + (long)c.rng.below(4)) : (T)(1000000 + (long)i - (long)c.rng.below(4));
     t.model  = t.isMin ? (val[i] < t.model ? val[i] : t.model) : (val[i] > t.model ? val[i] : t.model);
   }
   std::vector<std::vector<uint32_t>> order(c.maxT); // execution order per thread
@@ -406,6 +410,8 @@ void atomicMinMax(Case& c) {
   for (auto& w : written)
     std::sort(w.begin(), w.end());
   for (unsigned t = 0; t < c.maxT; ++t) {
+    // bound[j]: after this thread's previous operation on target j returned `old` having offered v, the target was
+    // <= min(old, v) (atomicMin) / >= max(old, v) (atomicMax), and it only moves in that direction
     std::vector<T> last(K);
     std::vector<uint8_t> have(K, 0);
     for (uint32_t i : order[t]) {
@@ -414,14 +420,14 @@ void atomicMinMax(Case& c) {
       bool okVal = std::binary_search(written[j].begin(), written[j].end(), ret[i]);
       bool okFin = g.isMin ? ret[i] >= g.model : ret[i] <= g.model;
       bool okMon = !have[j] || (g.isMin ? ret[i] <= last[j] : ret[i] >= last[j]);
-      // after my previous op with value v the target was already <= v (min) / >= v (max)
       if (!okVal || !okFin || !okMon) {
         c.viol("returned-old-value-impossible",
                J().kv("op", g.isMin ? "atomicMin" : "atomicMax").kv("type", tn<T>()).kv("returned", show(ret[i]))
-                   .kv("final", show(g.model)).kv("is_a_written_value", okVal).kv("monotone_in_thread", okMon).kv("thread", t));
+                   .kv("final", show(g.model)).kv("is_a_written_value", okVal).kv("not_beyond_final", okFin)
+                   .kv("consistent_with_this_threads_previous_op", okMon).kv("thread", t));
         return;
       }
-      last[j] = ret[i];
+      last[j] = g.isMin ? (val[i] < ret[i] ? val[i] : ret[i]) : (val[i] > ret[i] ? val[i] : ret[i]);
       have[j] = 1;
     }
   }
